@@ -59,10 +59,15 @@ func ZZ_C06_Sym() {
 	s := zzRunSym("c06", zzCfgFromParams())
 	zzPerKeyOrder(s, "c06")
 	zzConservation(s, "c06")
-	if !s.env.cfg.deferred || (s.env.cfg.expiry == zzExpNone && s.env.cfg.bound == 0) {
-		// no maintenance: OnDeletion tasks go straight to the executor; run them and compare
+	if !s.env.cfg.deferred || s.env.cfg.expiry == zzExpNone {
+		// no expiry: running the executor queue involves no sweep. Pending maintenance (write-buffer tasks of the
+		// operations above, evictions of oversized or overflowing entries) now runs; then both handlers must agree.
 		s.env.ex.Run()
+		s.env.c.CleanUp()
+		s.env.ex.Run()
+		s.syncEvents("c06.drain")
 		s.syncPlain("c06.final")
+		zzPerKeyOrder(s, "c06")
 	}
 }
 
